@@ -685,6 +685,11 @@ pub struct Converse<'a> {
 }
 
 thread_local! {
+    /// when set, `Converse` also calls summary(), to_json() and box_size() on every decoded value
+    pub static RENDER_DECODED: std::cell::Cell<bool> = const { std::cell::Cell::new(false) };
+}
+
+thread_local! {
     /// inputs skipped by `slow_reencode` on this thread (reported as excluded by construction)
     pub static SLOW_REENCODE_SKIPPED: std::cell::Cell<u64> = const { std::cell::Cell::new(0) };
 }
@@ -733,6 +738,15 @@ impl<'a> Visitor for Converse<'a> {
             Err(_) => return Ok(()),
         };
         self.accepted = true;
+        if RENDER_DECODED.with(|r| r.get()) {
+            // C06: the read-side renderings of whatever the decoder produced
+            guard(|| {
+                let _ = mp4::Mp4Box::summary(&v1);
+                let _ = mp4::Mp4Box::to_json(&v1);
+                let _ = mp4::Mp4Box::box_size(&v1);
+            })
+            .map_err(|p| p.failure(&format!("read_box({})+summary/to_json", k)))?;
+        }
         let b2 = match encode(&v1, k)? {
             Ok((b, _)) => b,
             Err(_) => return Ok(()),
